@@ -1,5 +1,6 @@
 """C20 — network streaming delivers the exact sequence, then ends, for every interleaving (lock-step REQ/REP model)."""
 import pickle
+import numpy as np
 import sys
 import threading
 import types
@@ -151,7 +152,8 @@ def make_fake_zmq(sched, log):
     return zmq
 
 
-def run_once(elems, chooser):
+def run_once(elems, chooser, reuse=False):
+    """reuse: the producer refills ONE object in place (a list or an array) and yields that same object every time"""
     sched = Sched(chooser)
     log = []
     fake = make_fake_zmq(sched, log)
@@ -166,6 +168,7 @@ def run_once(elems, chooser):
         class Source:
             def __init__(self):
                 self.i = 0
+                self.buf = None
 
             def __iter__(self):
                 return self
@@ -175,6 +178,12 @@ def run_once(elems, chooser):
                 if self.i >= len(elems):
                     raise StopIteration
                 self.i += 1
+                if reuse:
+                    if self.buf is None:
+                        self.buf = elems[self.i - 1].copy()
+                    else:
+                        self.buf[:] = elems[self.i - 1]
+                    return self.buf
                 return elems[self.i - 1]
 
         def sender():
@@ -255,22 +264,29 @@ def judge(ctx, elems_desc, elems, res, case, model_line):
             ctx.disagree('network-final-state-equals-model', case, 'delivered %d' % len(elems), model_line[:300])
 
 
-ELEMS = [None, (None, None), (0, None), (None, 1), 0, '', [], b'next', ('u', 1), {'status': None}, 1.5, [None], False]
+ELEMS = [None, (None, None), (0, None), (None, 1), 0, '', [], b'next', ('u', 1), {'status': None}, 1.5, [None], False,
+         # exception OBJECTS are ordinary elements (results collected with return_exceptions-style code): handed on, never raised
+         ValueError('as an element'), KeyError(1), OSError(2, 'msg'), StopIteration('as an element')]
 
 
 def check(ctx):
     rng = ctx.rng
     runs, lines = [], []
     # random schedules
-    for _ in range(ctx.scale(150, 1200)):
-        n = rng.choice([0, 1, 2, 3, 5, 9])
+    for it in range(ctx.scale(150, 1200)):
+        n = rng.choice([0, 1, 2, 3, 5, 9]) if it else 300      # one stream longer than CPython's small-integer cache (257)
         idx = [rng.randrange(len(ELEMS)) for _ in range(n)]
         elems = [ELEMS[i] for i in idx]
+        reuse = n >= 2 and rng.random() < 0.3
+        if reuse:
+            # what must arrive is the content at the moment each element was handed to the sender
+            elems = [[k, 'shot%d' % k] for k in range(n)] if rng.random() < 0.5 else [np.full(3, float(k)) for k in range(n)]
+            ctx.count('producer_reuses_one_object')
         bias = rng.choice([0.5, 0.1, 0.9])
         chooser = lambda cand, s, rng=rng, bias=bias: (cand[0] if rng.random() < bias else cand[-1])  # noqa
-        res = run_once(elems, chooser)
-        case = dict(elements=[repr(e) for e in elems], schedule='random', trace=' '.join(res['events']))
-        runs.append((case, elems, res, n >= 2 and any(e is None or e == (None, None) for e in elems)))
+        res = run_once(elems, chooser, reuse)
+        case = dict(elements=[repr(e) for e in elems], schedule='random', trace=' '.join(res['events']), producer_reuses_one_object=reuse)
+        runs.append((case, elems, res, n >= 2 and (reuse or any(e is None or (isinstance(e, tuple) and e == (None, None)) for e in elems))))
         lines.append('net.trace %d | %s' % (n, ' '.join(res['events'])))
     # every interleaving for small n (stateless DFS over the scheduler's choices)
     nmax = ctx.scale(2, 3)
